@@ -47,13 +47,24 @@ def _drive_stream(stream, reader=None, sector=512):
         stream.seek(0)
         out += len(stream.read(A))
         return out
+    # a request that raises is not the end of the object's life: the remaining requests are still made (each returns or raises in
+    # its turn -- none waits for something the failed one left behind), the first exception is what the execution reports
+    first = None
     for pos in (0, max(0, (S // 2) // 4096 * 4096 - 512), max(0, S - A - 600), max(0, S - 1)):
-        stream.seek(pos)
-        out += len(stream.read(A))
+        try:
+            stream.seek(pos)
+            out += len(stream.read(A))
+        except Exception as e:
+            first = first or e
     if reader is not None:
         ns = S // sector
         for s in (0, ns // 2, max(0, ns - 1)):
-            out += len(reader(s, min(16, max(1, ns - s))))
+            try:
+                out += len(reader(s, min(16, max(1, ns - s))))
+            except Exception as e:
+                first = first or e
+    if first is not None:
+        raise first
     return out
 
 
